@@ -383,8 +383,16 @@ where
         match self.dispatch_by_content_type(group.clone(), &mut mls_group, &message_bytes, event) {
             Ok(result) => Ok(result),
             Err(error) => {
+                // Only a commit can compete for an epoch (MIP-03). A stale proposal or
+                // application message must never be taken for a "better commit".
+                let is_commit = matches!(error, Error::ProcessMessageWrongEpoch(_))
+                    && MlsMessageIn::tls_deserialize_exact(message_bytes.as_slice())
+                        .ok()
+                        .and_then(|m| m.try_into_protocol_message().ok())
+                        .is_some_and(|p| p.content_type() == ContentType::Commit);
+
                 // Step 4: Handle errors with specialized recovery logic
-                self.handle_processing_error(error, event, &group)
+                self.handle_processing_error(error, event, &group, is_commit)
             }
         }
     }
